@@ -303,4 +303,21 @@ def check(case, ctx):
         exp = model.MA(e, [m.dims[i] for i in keep], [m.labels[i] for i in keep])
         common.expect(ctx, ID, "tuplereduce", label, r1, e1, exp=exp, rtol=1e-9, atol=1e-9)
         common.expect(ctx, ID, "tuplereduce-flat", "flatten+reduce for " + label, r2, e2, exp=exp, rtol=1e-9, atol=1e-9)
+    # label-returning transforms over a tuple of dimensions: same as over the group flattened in the listed order
+    for rep in range(2):
+        sub = rng.sample(list(m.dims), rng.randint(1, nd))
+        f = rng.choice(['argmax', 'argmin'])
+        a.values[...] = m.values
+        label = "a.%s(axis=%r)" % (f, tuple(sub)) + base
+        r1, e1 = ctx.call(label, lambda: getattr(a, f)(axis=tuple(sub)), operands=(a,))
+        r2, e2 = ctx.call("a.flatten(%r, insert=0).%s(axis=0)" % (tuple(sub), f) + base, lambda: getattr(a.flatten(tuple(sub), insert=0), f)(axis=0), operands=(a,))
+        ctx.outcomes['tuple-arg-extrema'] += 1
+        if (e1 is None) != (e2 is None):
+            ctx.v(ID, "tuple-arg:exc-parity", "%s: %r, over the flattened group: %r" % (label, e1, e2))
+        elif e1 is None:
+            d1 = np.asarray(r1.values if common.is_da(r1) else r1, dtype=object).ravel().tolist() if not isinstance(r1, tuple) else [r1]
+            d2 = np.asarray(r2.values if common.is_da(r2) else r2, dtype=object).ravel().tolist() if not isinstance(r2, tuple) else [r2]
+            same = len(d1) == len(d2) and all(tuples_match([x], [y if isinstance(y, tuple) else (y,)])[0] if isinstance(x, (tuple, list)) else model.lab_eq(x, y) for x, y in zip(d1, d2))
+            if not same:
+                ctx.v(ID, "tuple-arg:differs", "%s gives %s, the same over the flattened group gives %s" % (label, codec.short(d1, 150), codec.short(d2, 150)))
     return ('tuplereduce', nd, sp["regime"])
